@@ -446,7 +446,7 @@ def twin_of(ops):
 
 def norm_twin(op, res):
     k = op.split()[0]
-    if k in ('del', 'delm') or k.startswith('trim') or k in ('cupd', 'cdel', 'c1upd', 'c1del', 'compact'):
+    if k in ('del', 'delm', 'delmb') or k.startswith('trim') or k in ('cupd', 'cdel', 'c1upd', 'c1del', 'compact'):
         out = []
         for r in res:
             t = r.split()
